@@ -90,7 +90,7 @@ def gen(rng, tier):
         else:
             specs.append(f"popen//id=t{i}//execmodel={be}")
     tree = gen_tree(rng)
-    prior = [rng.choice(["empty", "empty", "stale", "otherkind", "extras", "copy"]) for _ in range(ntargets)]
+    prior = [rng.choice(["empty", "empty", "stale", "otherkind", "extras", "copy", "samemtime"]) for _ in range(ntargets)]
     steps = []
     for _ in range(rng.choice([0, 1, 1, 2])):
         steps.append({"what": rng.choice(["content", "same-size-content", "mode-only", "mtime-only", "add", "remove",
@@ -335,6 +335,10 @@ def c17_script(ctx, aid, oi, table, op):
                 d = os.path.join(base, "dst%d" % i)
                 if prior == "stale":
                     build_tree(d, [dict(e, seed=e.get("seed", 0) + 1, mtime=e.get("mtime", 0) - 50) if e["kind"] == "file" else e
+                                   for e in case["tree"]], srcdir, outside)
+                elif prior == "samemtime":
+                    # same modification time as the source, other size and content: only the size tells
+                    build_tree(d, [dict(e, seed=e.get("seed", 0) + 7, size=e.get("size", 0) + 3) if e["kind"] == "file" else e
                                    for e in case["tree"]], srcdir, outside)
                 elif prior == "copy":
                     # identical content, but other mtimes and modes (e.g. a plain cp -r)
